@@ -6,6 +6,10 @@ Every program is assembled several times:
           interval.  The result (checked like every other) is a *witness layout*.
  spread   1-3 labels (any position of any chain) pinned at their witness addresses, the
           other chains float; destination interval none or the witness hull plus room.
+ holes    (programs with >= 4 chains) a row of >= 2 pinned chains, each followed by a hole;
+          >= 2 floating chains, each owning one hole that fits it even at the assembler's
+          maximal size estimate; destination interval = hull of the row (or plus slack).
+          Several floating chains compete for the holes between several pinned chains.
  compact  chains packed back to back (sizes taken from the witness), every chain but at
           most one pinned at any of its labels, destination interval = exact hull of that
           packing (or plus a few bytes).  The packing is the layout that is known to exist.
@@ -27,7 +31,8 @@ CHECK = dict(
           "label operands, conditional/unconditional branches, calls, returns, delay slots, "
           ".byte/.word/.long/.string data with label references) on x86_32/64, ARM l/b, MIPS32 "
           "l/b, MSP430; pins = chain heads (base run), any 1-3 labels at their witness "
-          "addresses (spread), all-but-one chains at any label in a packed layout (compact); "
+          "addresses (spread), all-but-one chains at any label in a packed layout (compact), rows of "
+          ">=2 pinned chains with holes owned by >=2 floating chains (holes); "
           "destination interval none / roomy / exact hull / hull plus slack; distinct = "
           "distinct (program text, pins, interval); non-trivial = all"),
     assumptions=["mn.fromstring and mn.dis/dstflow2label give the same operand expressions for "
@@ -59,6 +64,12 @@ def floors(tier, counters, evaluations):
                     ("interval:roomy", 0.08), ("interval:none", 0.08), ("verified", 0.25)):
         if counters.get(k, 0) < frac * runs:
             miss.append("%s=%d < %.0f%% of %d runs" % (k, counters.get(k, 0), 100 * frac, runs))
+    if counters.get("holes:two_floating_two_pinned", 0) < 0.08 * runs:
+        miss.append("runs with >= 2 floating and >= 2 pinned chains: %d < 8%% of %d" % (
+            counters.get("holes:two_floating_two_pinned", 0), runs))
+    if counters.get("verified:holes", 0) < 0.04 * runs:
+        miss.append("verified runs with floating chains placed into holes: %d < 4%% of %d" % (
+            counters.get("verified:holes", 0), runs))
     for a in ("x86_32", "x86_64", "arml", "armb", "mips32l", "mips32b", "msp430"):
         if counters.get("verified:" + a, 0) == 0:
             miss.append("no verified assembly on %s" % a)
@@ -150,7 +161,8 @@ def pin_class(pins, chains):
 
 
 def one_program(rec, M, arch, rng):
-    prog = M.gen_program(arch, rng)
+    many = rng.random() < 0.4
+    prog = M.gen_program(arch, rng, many_chains=many)
     txt = prog.text()
     rec.count("programs")
     rec.count("arch:" + arch.name)
@@ -256,8 +268,11 @@ def one_program(rec, M, arch, rng):
         rec.count("verified")
         rec.count("verified:" + arch.name)
         rec.count("verified:" + pcl)
+        if variant == "holes":
+            rec.count("verified:holes")
         addr_of, ends = out
-        return dict(addr=addr_of, ends=ends, chains=res["chains"], nxt=res["nxt"])
+        return dict(addr=addr_of, ends=ends, chains=res["chains"], nxt=res["nxt"], cfg=res["cfg"],
+                    ldb=res["ldb"])
 
     # ---- base run: chain heads pinned far apart (structure from a first parse)
     from miasm.core import parse_asm
@@ -346,3 +361,63 @@ def one_program(rec, M, arch, rng):
             itv, kind = (max(0, cbase - pad), chi + pad), "roomy"
             note = "packing of the verified base run; interval = its hull plus %d bytes each side" % pad
         run("compact", p, itv, kind, note)
+
+    # ---- holes variants: several floating chains compete for the holes between several pinned
+    # chains.  Every chain gets a slot in one row: pinned chains at fixed addresses, each followed
+    # by a hole; every floating chain owns one hole that is just big enough for it by the
+    # assembler's own size estimates (block.max_size of the base run: these only size the holes,
+    # they decide no verdict).  The row itself - floating chains at the start of their holes - is
+    # the layout that is known to exist.  Placing the chains by decreasing size into the first
+    # hole that still fits always succeeds here (each chain owns a hole no bigger chain needs),
+    # provided the room left in a hole is updated after every placement.
+    n = len(chains)
+    if n < 4:
+        return
+    rec.count("programs_with_4_chains")
+    cfg0, ldb0 = wit0["cfg"], wit0["ldb"]
+
+    def blk(label):
+        return cfg0.loc_key_to_block(ldb0.get_name_location(label))
+
+    def pinned_extent(ch):
+        return sum(blk(l).max_size + (-blk(l).max_size) % blk(l).alignment for l in ch)
+
+    def floating_need(ch):
+        return sum(blk(l).max_size + blk(l).alignment - 1 for l in ch)
+    for _ in range(2):
+        order = list(chains)
+        rng.shuffle(order)
+        k = rng.randint((n + 1) // 2, n - 2)          # pinned chains; holes = k >= floating = n - k
+        pinned, floating = order[:k], order[k:]
+        holes = list(range(k))                         # hole i follows pinned chain i (last = tail)
+        rng.shuffle(holes)
+        owner = dict(zip(holes, floating))             # hole -> floating chain
+        hbase = rng.choice(arch.cbases)
+        hbase += (-hbase) % 4
+        p, cur = {}, hbase
+        row = []
+        for i, ch in enumerate(pinned):
+            p[ch[0]] = cur
+            cur += pinned_extent(ch)
+            if i in owner:
+                size = floating_need(owner[i]) + 1 + unit * rng.choice([0, 0, 0, 1, 2, 6])
+            else:
+                size = unit * rng.choice([0, 0, 1, 2])
+            size += (-size) % 4
+            row.append("%s@%#x hole %d%s" % (ch[0], p[ch[0]], size,
+                                             (" for " + owner[i][0]) if i in owner else ""))
+            cur += size
+        hhi = cur - 1
+        if rng.random() < 0.6:
+            itv, kind = (hbase, hhi), "exact"
+        else:
+            slack = 4 * rng.choice([1, 2, 4])
+            itv, kind = (hbase, hhi + slack), "exact+slack"
+        rec.count("holes:runs")
+        rec.count("holes:floating_chains", len(floating))
+        rec.count("holes:pinned_chains", len(pinned))
+        if len(floating) >= 2 and len(pinned) >= 2:
+            rec.count("holes:two_floating_two_pinned")
+        run("holes", p, itv, kind,
+            "row of pinned chains, each followed by a hole; every floating chain fits the hole it owns "
+            "even at the assembler's maximal size estimate: " + "; ".join(row))
